@@ -165,6 +165,74 @@ where
     }
 }
 
+// verification-only hooks (see /verif); compiled only under the guard cfg
+#[cfg(oxfordcontrol_clarabel_rs_verif)]
+#[allow(missing_docs, private_interfaces, non_snake_case)]
+pub mod verif_hooks_d3 {
+    //! access to the explicit 3x3 Cholesky routines, and their *specification* as exchangeable bodies
+    use super::*;
+
+    /// the real factor + solve: `Some(x)` with the computed solution of `H x = b` iff the factorisation succeeds
+    pub fn chol3_factor_solve<T: FloatT>(h: [T; 6], b: [T; 3]) -> Option<[T; 3]> {
+        let H = DenseMatrixSym3 { data: h };
+        let mut L = DenseMatrixSym3::zeros();
+        if !L.cholesky_3x3_explicit_factor(&H) {
+            return None;
+        }
+        let mut x = [T::zero(); 3];
+        L.cholesky_3x3_explicit_solve(&mut x, &b);
+        Some(x)
+    }
+
+    /// the real factorisation alone: the packed factor iff it succeeds
+    pub fn chol3_factor<T: FloatT>(h: [T; 6]) -> Option<[T; 6]> {
+        let H = DenseMatrixSym3 { data: h };
+        let mut L = DenseMatrixSym3::zeros();
+        if L.cholesky_3x3_explicit_factor(&H) {
+            Some(L.data)
+        } else {
+            None
+        }
+    }
+
+    /// the real triangular solves alone, for a caller-supplied factor (packed like the matrix)
+    pub fn chol3_solve<T: FloatT>(l: [T; 6], b: [T; 3]) -> [T; 3] {
+        let L = DenseMatrixSym3 { data: l };
+        let mut x = [T::zero(); 3];
+        L.cholesky_3x3_explicit_solve(&mut x, &b);
+        x
+    }
+
+    fn minors<T: FloatT>(A: &DenseMatrixSym3<T>) -> (T, T, T) {
+        let (a, b, c, d, e, f) = (A[(0, 0)], A[(0, 1)], A[(1, 1)], A[(0, 2)], A[(1, 2)], A[(2, 2)]);
+        let m2 = a * c - b * b;
+        let det = a * (c * f - e * e) - b * (b * f - e * d) + d * (b * e - c * d);
+        (a, m2, det)
+    }
+
+    /// specification of `cholesky_3x3_explicit_factor` (same signature, to be swapped in as its body):
+    /// keeps the matrix itself as the "factor" and succeeds iff every leading principal minor is positive
+    pub fn spec_factor<T: FloatT>(this: &mut DenseMatrixSym3<T>, A: &DenseMatrixSym3<T>) -> bool {
+        this.data = A.data;
+        let (m1, m2, det) = minors(A);
+        m1 > T::zero() && m2 > T::zero() && det > T::zero()
+    }
+
+    /// specification of `cholesky_3x3_explicit_solve` for a "factor" kept by `spec_factor`:
+    /// the solution of `A x = b` by Cramer's rule (no square roots)
+    pub fn spec_solve<T: FloatT>(this: &DenseMatrixSym3<T>, x: &mut [T], b: &[T]) {
+        let A = this;
+        let (a, p, c, d, e, f) = (A[(0, 0)], A[(0, 1)], A[(1, 1)], A[(0, 2)], A[(1, 2)], A[(2, 2)]);
+        let (_, _, det) = minors(A);
+        // adjugate of the symmetric matrix [a p d; p c e; d e f]
+        let (c00, c01, c02) = (c * f - e * e, d * e - p * f, p * e - c * d);
+        let (c11, c12, c22) = (a * f - d * d, p * d - a * e, a * c - p * p);
+        x[0] = (c00 * b[0] + c01 * b[1] + c02 * b[2]) / det;
+        x[1] = (c01 * b[0] + c11 * b[1] + c12 * b[2]) / det;
+        x[2] = (c02 * b[0] + c12 * b[1] + c22 * b[2]) / det;
+    }
+}
+
 // internal unit tests
 #[test]
 fn test_3x3_matrix_index() {
